@@ -31,7 +31,12 @@ pub fn from_bytes(bytes: &[u8]) -> Result<HashMap<String, Vec<u8>>> {
         let name = reader.read_string()?.ok_or(ArcError::MissingName)?;
         let index = reader.read_u32()?;
         let size = reader.read_u32()?;
-        let address = reader.read_u32()? + header_padding;
+        let address = reader
+            .read_u32()?
+            .checked_add(header_padding)
+            .ok_or(ArcError::ArchiveError(
+                crate::ArchiveError::ArchiveTooSmall,
+            ))?;
         entries.push(ArcEntry {
             name,
             index,
